@@ -78,6 +78,7 @@ type builder struct {
 	p     *plan
 	extra bool // the text has a member the schema does not declare
 	nbool int
+	nint  int
 }
 
 func (b *builder) lit(s string) { b.out = append(b.out, s...) }
@@ -94,6 +95,12 @@ func (b *builder) digit(nonzero bool) int64 {
 }
 
 func (b *builder) intTok() aval {
+	b.nint++
+	if b.nint > 3 { // only the first three integers of an instance are symbolic (keeps wide objects tractable)
+		sh := b.p.next(3)
+		b.lit([]string{"7", "12", "-3"}[sh])
+		return aval{kind: kNum, num: []int64{7, 12, -3}[sh]}
+	}
 	switch b.p.next(3) {
 	case 0:
 		return aval{kind: kNum, num: b.digit(false)}
@@ -366,6 +373,32 @@ func refValid(s *zzSchema, v aval) bool {
 	}
 }
 
+// absentOptionalArray: some optional member of array type with minItems >= 1 is absent from the
+// instance (at any object level) - region of the recorded finding C03/absent-optional-array-minitems.
+func absentOptionalArray(s *zzSchema, v aval) bool {
+	if s.Type != "object" || v.kind != kObj {
+		return false
+	}
+	for _, pr := range s.Props {
+		found := -1
+		for i, k := range v.keys {
+			if k == pr.Name {
+				found = i
+			}
+		}
+		if found < 0 {
+			if !pr.Required && pr.S.Type == "array" && pr.S.MinItems != nil && *pr.S.MinItems >= 1 {
+				return true
+			}
+			continue
+		}
+		if absentOptionalArray(pr.S, v.vals[found]) {
+			return true
+		}
+	}
+	return false
+}
+
 // accept mirrors the generated request decoder: Decode, no trailing data, then Validate (when generated).
 func accept(idx int, text []byte) (any, bool) {
 	v := zzNew(idx)
@@ -390,11 +423,13 @@ func HAccept(idx, variant int) {
 	av := b.value(zzSchemas[idx], false)
 	want := refValid(zzSchemas[idx], av)
 	_, got := accept(idx, b.out)
+	zz.Observe("text", string(b.out))
 	if got {
 		zz.Cover("instance-accepted")
 		zz.Assert(want, "an accepted document is valid against the schema")
 	} else {
 		zz.Cover("instance-refused")
+		zz.Known("C03/absent-optional-array-minitems", absentOptionalArray(zzSchemas[idx], av))
 		zz.Assert(zz.Not(want), "a refused document is invalid against the schema")
 	}
 }
